@@ -22,7 +22,9 @@ CONSTANTS NG,        \* number of graphs
 
 VARIABLES st, last, hist
 vars == <<st, last, hist>>
-View == st
+\* the number of calls made is part of the fingerprint, so that the bounded exploration (and hence the set of
+\* replayed transitions) does not depend on the order in which parallel workers reach a state
+View == <<st, Len(hist)>>
 
 C(op) == [ANoCall EXCEPT !.op = op]
 Compact(c) == <<c.op, c.g, c.n, c.ns, c.opt, c.name, c.names, c.names2, c.v>>
